@@ -439,6 +439,9 @@ def contains(it, c, x):
 
 # ----------------------------------------------------------------------------------------- operators
 def binop(it, op, a, b, node=None):
+    if isinstance(a, V) and isinstance(a.sort, S.TOpt) and isinstance(a.sort.inner, S.TRef) and not isinstance(op, ast.Is):
+        # an Optional object as the left operand of an overloaded operator: as for numbers, allowed where the path condition excludes None
+        a = it.coerce(a, a.sort.inner)
     if isinstance(a, V) and isinstance(a.sort, S.TRef) and not isinstance(op, ast.Is):
         opname = {
             ast.Add: "__add__", ast.Sub: "__sub__", ast.BitOr: "__or__", ast.BitAnd: "__and__", ast.Mult: "__mul__",
